@@ -82,15 +82,30 @@ def run(chk):
         par = oqupy.TempoParameters(dt=0.1, epsrel=eps, dkmax=dkmax)
         method = rng.choice(["tempo", "pttempo", "meanfield"])
         unique = rng.random() < 0.5
-        info = {"kind": "covariance", "method": method, "d": d, "eigenvalues": ev, "dkmax": dkmax, "unique": unique}
+        storage = rng.choice(["memory", "file-backed", "exported+imported"]) if method == "pttempo" else "memory"
+        if it < 2:
+            method, storage = "pttempo", ["file-backed", "exported+imported"][it]      # every run: both file routes of PT-TEMPO
+        info = {"kind": "covariance", "method": method, "d": d, "eigenvalues": ev, "dkmax": dkmax, "unique": unique, "process_tensor": storage}
 
         def solve(Hh, Oo, rr):
             bath = oqupy.Bath((Oo + Oo.conj().T) / 2, _corr)
             if method == "tempo":
                 return np.array(quiet(oqupy.Tempo(oqupy.System(Hh), bath, par, rr, 0.0, unique=unique).compute, 0.4, progress_type="silent").states)
             if method == "pttempo":
-                pt = quiet(oqupy.pt_tempo_compute, bath, 0.0, 0.4, parameters=par, unique=unique, progress_type="silent")
-                return np.array(quiet(oqupy.compute_dynamics, oqupy.System(Hh), initial_state=rr, process_tensor=pt, progress_type="silent").states)
+                pt = quiet(oqupy.pt_tempo_compute, bath, 0.0, 0.4, parameters=par, unique=unique,
+                           process_tensor_file=True if storage == "file-backed" else None, progress_type="silent")
+                if storage == "exported+imported":
+                    import tempfile, os, shutil
+                    dd_ = tempfile.mkdtemp(prefix="c05_")
+                    pt.export(os.path.join(dd_, "pt.hdf5"))
+                    pt = oqupy.import_process_tensor(os.path.join(dd_, "pt.hdf5"), "file")
+                out = np.array(quiet(oqupy.compute_dynamics, oqupy.System(Hh), initial_state=rr, process_tensor=pt, progress_type="silent").states)
+                if storage == "file-backed":
+                    pt.remove()
+                elif storage == "exported+imported":
+                    pt.close()
+                    shutil.rmtree(dd_, ignore_errors=True)
+                return out
             X = Hh
             s = oqupy.TimeDependentSystemWithField(lambda t, f: X + 0.1 * f.real * X @ X)
             mfs = oqupy.MeanFieldSystem([s], field_eom=lambda t, st, f: -0.1 * f + 0.2 * np.trace(st[0] @ X))
